@@ -254,6 +254,11 @@ def run(m: Model, r: Report, tier: str) -> None:
         r.check(not badsel, "R6", f"{hins.qualname}#{side}-attribute-selection",
                 f"{badsel}: exactly the public attributes are stored" + (" (the response's trigger_request back-reference is not serialisable and must be left out)" if side == "response" else ""), loc=hins.loc)
 
+    from sa.uds_rules import guarded_attribute_access
+    n_ga = guarded_attribute_access(m, r, "R6", hins, "response", f"{SERVICE}.UDSResponse") + guarded_attribute_access(m, r, "R6", hins, "request", f"{SERVICE}.UDSRequest")
+    if n_ga < 3:
+        raise AnalysisError(f"{hins.qualname}: guarded attribute reads of request / response not found ({n_ga})")
+
     # ---------------------------------------------------------------- R7
     dis = m.require_function(f"{HANDLER}.DBHandler.disconnect")
     def line_of(pred) -> list[int]:
